@@ -61,12 +61,23 @@ func recordAPI(r *recorder, a *args) {
 				v := versions[ver]
 				ord := r.tabs.Order[ver]
 				vals := r.tabs.Values[ver]
-				// a random object through Sets
+				// a random object through Sets; every third one has only its mandatory metrics defined
 				o := v.Zero()
 				h := r.handle()
+				baseOnly := i%3 == 0
 				for _, m := range ord {
-					if rng.Intn(3) > 0 {
-						r.set(g, ver, h, o, m, vals[m][rng.Intn(len(vals[m]))])
+					vs := vals[m]
+					optional := vs[0] == "X" || vs[len(vs)-1] == "ND"
+					if baseOnly && optional {
+						continue
+					}
+					if baseOnly || rng.Intn(3) > 0 {
+						r.set(g, ver, h, o, m, vs[rng.Intn(len(vs))])
+					}
+				}
+				if baseOnly {
+					for k := 0; k < 4; k++ {
+						r.vector(g, ver, h, o)
 					}
 				}
 				// some illegal calls
